@@ -159,3 +159,72 @@ func SupportedHash(env *ty.Env, t *ty.Ty) bool {
 	})
 	return ok
 }
+
+// SupportedDeepCopy: what deriveDeepCopy(dst, src T) accepts and compiles for (C05's grammar):
+// T is a pointer, slice or map; map keys are pointer-free ("value keys"); no pointer to an unnamed
+// struct at top level, no unnamed non-copyable struct component, no map whose values are
+// non-copyable arrays (finding F19: the emitted `dst[k][i] = …` does not compile).
+func SupportedDeepCopy(env *ty.Env, t *ty.Ty) bool {
+	u := env.Under(t)
+	if u.K != ty.Ptr && u.K != ty.Slice && u.K != ty.Map {
+		return false
+	}
+	if u.K == ty.Ptr && u.Elem.K == ty.Struct {
+		return false
+	}
+	return copyPartsOK(env, t)
+}
+
+// zeroSized: values of the type occupy no memory (their slices have no observable identity).
+func zeroSized(env *ty.Env, t *ty.Ty) bool {
+	u := env.Under(t)
+	switch u.K {
+	case ty.Struct:
+		for _, f := range u.Fields {
+			if !zeroSized(env, f.T) {
+				return false
+			}
+		}
+		return true
+	case ty.Array:
+		return u.N == 0 || zeroSized(env, u.Elem)
+	}
+	return false
+}
+
+func copyPartsOK(env *ty.Env, t *ty.Ty) bool {
+	ok := true
+	Walk(env, t, CtxTop, map[int]bool{}, func(x *ty.Ty, ctx int) {
+		if ux := env.Under(x); ux.K == ty.Slice && zeroSized(env, ux.Elem) {
+			ok = false // backing arrays of zero-size elements cannot be told apart by the observer
+		}
+		if !basicOK(x) {
+			ok = false
+		}
+		if isUnnamedStruct(x) && !env.CanEqual(x) {
+			ok = false
+		}
+		if ctx == CtxKey && !env.CanEqual(x) {
+			ok = false
+		}
+		if ux := env.Under(x); ux.K == ty.Map {
+			if v := env.Under(ux.Elem); v.K == ty.Array && !env.CanEqual(ux.Elem) {
+				ok = false
+			}
+		}
+	})
+	return ok
+}
+
+// SupportedClone: deriveClone(src T).
+func SupportedClone(env *ty.Env, t *ty.Ty) bool {
+	u := env.Under(t)
+	switch u.K {
+	case ty.Ptr, ty.Slice, ty.Map:
+		return SupportedDeepCopy(env, t)
+	}
+	if u.K == ty.Struct && t.K != ty.Named {
+		return false // clone goes through deepcopy of a pointer to the unnamed struct: unsupported
+	}
+	return copyPartsOK(env, t)
+}
